@@ -102,6 +102,11 @@ class VLoop(asyncio.BaseEventLoop):
             raise OSError(_errno.EHOSTUNREACH, "No route to host")
         if outcome == "timeout":
             raise TimeoutError(_errno.ETIMEDOUT, "Connection timed out")
+        if outcome == "gaierror":
+            import socket as _socket
+            raise _socket.gaierror(-2, "Name or service not known")
+        if outcome == "multiple":      # what asyncio raises when several resolved addresses all fail
+            raise OSError("Multiple exceptions: [Errno 111] Connect call failed ('192.0.2.1', 502), [Errno 101] Network is unreachable")
         if outcome == "hangs":
             await self.create_future()  # never completes; only cancellation ends it
         protocol = protocol_factory()
@@ -201,7 +206,9 @@ class _FakeTransport(asyncio.transports._FlowControlMixin, asyncio.Transport):
         self._vloop = loop
         self.world = world
         self._protocol = protocol
-        self._addr = addr
+        # like a connected socket: the peer address is the RESOLVED numeric address, whatever name the caller configured
+        self._name = addr
+        self._addr = (world.resolve.get(addr[0], addr[0]),) + tuple(addr[1:]) if addr else addr
         self._closing = False
         self._conn_lost = 0
         self._eof = False
@@ -346,6 +353,9 @@ class FakeTcpTransport(_FakeTransport):
 # ---------------------------------------------------------------------------------------------
 # the world = network + peer
 # ---------------------------------------------------------------------------------------------
+DEFAULT_RESOLVE = {"inverter.local": "192.0.2.1", "goodwe-inverter": "192.0.2.1", "192.0.2.001": "192.0.2.1", "3221225985": "192.0.2.1"}
+
+
 class World:
     """Everything outside the library: logs transmissions and transport life cycle, executes the peer."""
 
@@ -363,6 +373,7 @@ class World:
         self.max_open = 0
         self._buckets = {}
         self.peer_events = []   # (time, error|eof|reset, tid): transport-killing events caused by the peer
+        self.resolve = dict(DEFAULT_RESOLVE)   # host names / non-canonical spellings -> numeric address (getaddrinfo stand-in)
 
     # -- transports ----------------------------------------------------------------------------
     def register(self, tr) -> int:
